@@ -177,7 +177,7 @@ def jacobian_case(ctx, S, rng, kmax):
     ctx.count("jacobian:parity=%d" % parity)
     ctx.case(["jac", parity, red], k >= 2, {"kind": "jacobian", "parity": parity, "k": k, "reduced": red[:4]})
     replay = {"kind": "jacobian", "parity": parity, "reduced": red}
-    tol = Fraction(1, 10 ** 10) * k
+    tol = Fraction(1, 10 ** 10) * k + pr(d.ask("sym.jacerr %d 70 %s" % (parity, rl(F(x) for x in red))))
     f = np.asarray(f); df = np.asarray(df)
     if f.shape != (k,) or df.shape != (k, k):
         ctx.violation("c12:jacobian-shape", "gen_jacobian shapes %s %s for k=%d" % (f.shape, df.shape, k), replay)
@@ -215,7 +215,9 @@ def jacobian_sweep(ctx, S, rng, tier):
             if f.shape != (k,) or df.shape != (k, k):
                 ctx.violation("c12:jacobian-shape", "gen_jacobian shapes %s %s for k=%d" % (f.shape, df.shape, k), replay)
                 continue
-            tol = Fraction(1, 10 ** 10) * k
+            # the specification's own distance from the TRUE coefficients / derivatives is proved (C12c: jacSpec_value_err,
+            # jacSpec_col_deriv <= jacErr); the comparison allows for it on top of the code's rounding
+            tol = Fraction(1, 10 ** 10) * k + pr(d.ask("sym.jacerr %d 50 %s" % (parity, rl(F(x) for x in red))))
             mf = pl(d.ask("sym.jacf %d 50 %s" % (parity, rl(F(x) for x in red))))
             worst = max(abs(F(float(f[i])) - mf[i]) for i in range(k))
             if worst > tol:
@@ -230,7 +232,7 @@ def jacobian_sweep(ctx, S, rng, tier):
 
 
 def run(tier, seed):
-    ctx = core.Ctx(PROP, tier, seed, "proof", ["C12", "C12b", "C10"])
+    ctx = core.Ctx(PROP, tier, seed, "proof", ["C12", "C12b", "C12c", "C10"])
     ctx.axioms = core.audit(ctx.modules)
     import pyqsp.sym_qsp_opt as S
     q = tier == "quick"
